@@ -200,7 +200,14 @@ def gen_stream(rng, model_name):
     import penman
     from penman.tree import Tree
     amr_roles = [':ARG0', ':ARG1', ':ARG0-of', ':ARG2', ':op1', ':op2', ':op10', ':mod', ':polarity', ':quant', ':location',
-                 ':time', ':domain-of', ':ARG1-of', ':poss', ':name', ':consist-of', ':subset']
+                 ':time', ':domain-of', ':ARG1-of', ':poss', ':name', ':consist-of', ':subset',
+                 ':prep-out-of', ':mod-of', ':location-of']
+    # roles must be in canonical inversion form FOR THE MODEL IN USE (well-formed input):
+    # an inverted use of a role that ends in -of by definition exists only under models defining it
+    if model_name == 'amr':
+        amr_roles += [':consist-of-of', ':prep-on-behalf-of-of', ':prep-out-of-of', ':prep-on-behalf-of']
+    elif model_name == 'mini':
+        amr_roles += [':consist-of-of']
     texts = []
     for _ in range(rng.randint(1, 4)):
         node = gen.random_tree_node(rng, gen.fresh_vars(), maxdepth=rng.choice([1, 2, 3]), wf=True,
@@ -263,6 +270,17 @@ def graphs_equal(s1, s2, model):
     return True
 
 
+def has_inverted_reifiable_attribute(streams, model):
+    """F30: an attribute written with an inverted role whose plain form is reifiable."""
+    import penman
+    for text in streams:
+        for g in penman.iterdecode(text, model=model):
+            for s_, r, t in g.attributes():
+                if model.is_role_inverted(r) and model.is_role_reifiable(model.invert_role(r)):
+                    return True
+    return False
+
+
 def one_case(args):
     """Worker: returns a list of (kind, key, what, case) findings for one generated case."""
     idx, seed, tier = args
@@ -275,7 +293,8 @@ def one_case(args):
     model_tbl = models.MINI_AMR if opts.get('model') else None
     model = get_model(opts, model_tbl)
     nstreams = 1 if mode == 'stdin' else rng.randint(1, 3)
-    streams = [gen_stream(rng, None) for _ in range(nstreams)]
+    mname = 'amr' if opts.get('amr') else 'mini' if opts.get('model') else 'default'
+    streams = [gen_stream(rng, mname) for _ in range(nstreams)]
     case = {'opts': opts, 'mode': mode, 'streams': streams}
     tmpdir = tempfile.mkdtemp(prefix='c20_')
     try:
@@ -320,7 +339,10 @@ def one_case(args):
         elif stable and code == 0 and out:
             out2, code2, _ = run_cli_inprocess(argv, out, [])
             if out2 != out:
-                findings.append(('fail', 'idempotence', 'feeding the output back with the same options changes it', dict(case, first=out, second=out2)))
+                key = 'idempotence'
+                if opts.get('--reify-attributes') and opts.get('--reify-edges') and has_inverted_reifiable_attribute(streams, model):
+                    key = 'F30-inverted-reifiable-attribute'
+                findings.append(('fail', key, 'feeding the output back with the same options changes it', dict(case, first=out, second=out2)))
         # (c) content preserved without normalisation options
         no_norm = not any(opts.get(k) for k in NORM_FLAGS + ['reconfigure', 'rearrange', 'make_variables', 'triples', 'check'])
         if no_norm and code == 0:
